@@ -31,10 +31,13 @@ static thread_data *coroutine_get_thread_id(struct coroutine_self *c) { return c
 /* threads::detail::interruption_point(id, ec) (thread_helpers.cpp:108): thread_data::interruption_point() throws thread_interrupted if an
  * interruption was requested and is enabled; otherwise the error_code is reset */
 static long g_ipoints;                    /* saturating at 3 */
+/* the request flag of the running task (requested_interrupt_ && enabled_interrupt_): set by interrupt_thread() of another thread at any
+ * time, in particular while the task is suspended (interrupt_thread then wakes it with restart state `abort`); cleared when delivered */
+static bool g_intr_pending, g_intr_at_entry, g_intr_while_suspended;
 static void vx_interruption_point(thread_data *id, struct error_code *ec)
 {
   if (g_ipoints < 3) g_ipoints++;
-  if (nondet_bool()) { vx_throw_exception(VX_ERR_INTERRUPTED); return; }
+  if (g_intr_pending) { g_intr_pending = false; vx_throw_exception(VX_ERR_INTERRUPTED); return; }
   if (ec != &vx_throws) *ec = make_success_code();
 }
 
@@ -89,6 +92,7 @@ static thread_restart_state coroutine_yield(struct coroutine_self *c, thread_res
   VX_ASSERT(g_reg_made == 1, "the task suspends only after its timer has been registered (nobody else would wake it at the deadline)");
   if (g_co_yields < 2) g_co_yields++;
   g_y_state = r.first; g_y_next = r.second;
+  if (nondet_bool()) { g_intr_pending = true; g_intr_while_suspended = true; }   /* interrupted while suspended */
   g_y_delivered = nondet_i8();
   /* A-RESTART: wakers deliver signaled / timeout / abort only (census: no other restart state is ever passed to a set_thread_state call) */
   VX_ASSUME(g_y_delivered == thread_restart_state_signaled || g_y_delivered == thread_restart_state_timeout || g_y_delivered == thread_restart_state_abort);
@@ -102,7 +106,8 @@ static void vx_wait_yield(void)
 {
   if (g_wait_yields < 2) g_wait_yields++;
 #ifndef KNOWN_CANCEL_WAIT_THROWS
-  if (nondet_bool()) { vx_throw_exception(VX_ERR_INTERRUPTED); g_exc_in_wait = true; }
+  if (nondet_bool()) g_intr_pending = true;   /* a request may arrive at any time */
+  if (g_intr_pending && nondet_bool()) { g_intr_pending = false; vx_throw_exception(VX_ERR_INTERRUPTED); g_exc_in_wait = true; }
 #endif
 }
 
@@ -121,6 +126,11 @@ thread_restart_state suspend_until(struct steady_time_point abs_time, thread_id_
 __CPROVER_requires(g_self.id == &g_td && (nextid == VX_INVALID_ID || nextid == &g_next_td) && (ec == &vx_throws || ec == &vx_ec_obj) && g_reg_ec_expect == ec)
 __CPROVER_requires(EXC_ZERO && g_refs == 0 && g_reg_calls == 0 && g_reg_made == 0 && g_co_yields == 0 && g_q_calls == 0 && g_sch_calls == 0 && g_ipoints == 0 &&
                    g_flag_loads == 0 && g_wait_yields == 0 && !g_exc_in_wait && !g_q_after_handover && !g_q_started_seen)
+__CPROVER_requires(g_intr_pending == g_intr_at_entry && !g_intr_while_suspended)
+/* C13: a request that is pending on entry, or that arrives while the task is suspended, ends this call by thread_interrupted (the one
+ * exception thread_function_nullary swallows) -- not by yield_aborted, not by a normal return: interruption points BEFORE and AFTER the yield */
+__CPROVER_ensures(g_intr_at_entry ==> (vx_exc && g_thrown_code == VX_ERR_INTERRUPTED && g_co_yields == 0 && g_reg_calls == 0))
+__CPROVER_ensures((g_co_yields == 1 && g_intr_while_suspended) ==> (vx_exc && g_thrown_code == VX_ERR_INTERRUPTED))
 /* registered as a waiter: at most one timer, for THIS task, at the caller's deadline, to make it pending with restart state `timeout`,
  * with a `started` flag that is initially clear */
 __CPROVER_ensures(g_reg_calls <= 1)
@@ -147,7 +157,7 @@ __CPROVER_ensures((vx_exc && g_thrown_code == pika_error_yield_aborted) ==> (g_c
 __CPROVER_ensures(g_errs >= 1 ==> g_err == pika_error_yield_aborted)
 __CPROVER_assigns(EXC_FRAME, Q_FRAME, FLAG_FRAME, g_refs, g_reg_calls, g_reg_made, g_reg_thrd, g_reg_time, g_reg_started, g_reg_started_init, g_reg_state, g_reg_ex,
                   g_reg_prio, g_reg_retry, g_reg_ec_ok, g_co_yields, g_y_state, g_y_next, g_y_delivered, g_sch_calls, g_sch_on_ok, g_sch_thrd, g_ipoints,
-                  g_wait_yields, g_exc_in_wait, g_q_after_handover, g_q_started_seen)
+                  g_wait_yields, g_exc_in_wait, g_q_after_handover, g_q_started_seen, g_intr_pending, g_intr_while_suspended)
 //@LIFT body
 #endif
 
@@ -207,6 +217,7 @@ void harness(void)
   g_reg_retry = false; g_reg_ec_ok = false; g_reg_ec_expect = ec;
   g_co_yields = 0; g_y_state = 0; g_y_next = 0; g_y_delivered = 0; g_sch_calls = 0; g_sch_on_ok = false; g_sch_thrd = 0; g_ipoints = 0; g_wait_yields = 0;
   g_exc_in_wait = false; g_q_after_handover = false; g_q_started_seen = false;
+  g_intr_at_entry = nondet_bool(); g_intr_pending = g_intr_at_entry; g_intr_while_suspended = false;
   thread_data *nextid = nondet_bool() ? &g_next_td : VX_INVALID_ID;
   thread_restart_state r = suspend_until(t, nextid, "desc", ec);
   if (!vx_exc && g_errs == 0 && g_co_yields == 1 && r == thread_restart_state_timeout) VX_REACH("woken_by_the_timer_no_cancel");
@@ -218,6 +229,7 @@ void harness(void)
   if (g_reg_calls == 1 && g_reg_made == 0 && !vx_exc) VX_REACH("registration_failed_error_code_not_suspended");
   if (g_reg_calls == 0 && vx_exc) VX_REACH("interrupted_before_registering");
   if (g_co_yields == 1 && vx_exc && g_thrown_code == VX_ERR_INTERRUPTED && g_q_calls == 1) VX_REACH("interrupted_after_cancel");
+  if (g_co_yields == 1 && g_intr_while_suspended && g_y_delivered == thread_restart_state_abort) VX_REACH("interrupted_while_suspended");
   if (g_sch_calls == 1) VX_REACH("foreign_nextid_dispatched");
   if (g_co_yields == 1 && g_y_next == &g_next_td) VX_REACH("own_nextid_handed_to_the_worker");
 #ifndef KNOWN_CANCEL_WAIT_THROWS
